@@ -97,7 +97,42 @@ pub fn wall_name(k: usize, i: usize) -> String {
 }
 
 /// geometry blocks of the building
+/// every other building writes its positive placement numbers (X, Y, Z, AZIMUTH of floors, spaces, walls, shades and
+/// the deviation of the building) with an explicit plus sign, as BDL allows
+pub fn writes_plus_signs(s: &Spec) -> bool {
+    (s.outline + s.storeys + s.window + s.shade) % 2 == 1
+}
+
+fn with_plus_signs(text: &str) -> String {
+    let mut out = String::with_capacity(text.len() + 64);
+    for l in text.split_inclusive('\n') {
+        let t = l.trim();
+        let plus = t.split_once('=').and_then(|(k, v)| {
+            let (k, v) = (k.trim(), v.trim());
+            if ["X", "Y", "Z", "AZIMUTH"].contains(&k) && v.parse::<f32>().map_or(false, |x| x > 0.0) && !v.starts_with('+') {
+                Some(v.to_string())
+            } else {
+                None
+            }
+        });
+        match plus {
+            Some(v) => out.push_str(&l.replacen(&v, &format!("+{}", v), 1)),
+            None => out.push_str(l),
+        }
+    }
+    out
+}
+
 pub fn geometry_bdl(s: &Spec) -> String {
+    let t = geometry_bdl_plain(s);
+    if writes_plus_signs(s) {
+        with_plus_signs(&t)
+    } else {
+        t
+    }
+}
+
+fn geometry_bdl_plain(s: &Spec) -> String {
     let o = OUTLINES[s.outline];
     let mut t = String::new();
     let cons = |t: &mut String, name: &str, layers: &str| {
@@ -213,7 +248,7 @@ pub fn bdl_text(s: &Spec) -> String {
     // global deviation
     let needle = "AZIMUTH   = 0.000000";
     assert!(kept.contains(needle), "template BUILD-PARAMETERS AZIMUTH line not found");
-    kept = kept.replacen(needle, &format!("AZIMUTH   = {:.6}", s.global_dev), 1);
+    kept = kept.replacen(needle, &format!("AZIMUTH   = {}{:.6}", if writes_plus_signs(s) && s.global_dev > 0.0 { "+" } else { "" }, s.global_dev), 1);
     format!("{}\n{}", kept, geometry_bdl(s))
 }
 
